@@ -1,7 +1,13 @@
 #!/bin/bash
-# usage: try_mutant.sh <patch.diff> <id>...   applies the patch to /repo, runs the checks, reverts
+# usage: try_mutant.sh <patch.diff (absolute path)> <id>...   applies the patch to /repo, runs the checks, reverts.
+# The evidence files are saved and restored: evidence committed under /verif must come from runs on the unchanged tree.
 p=$1; shift
 if [ -n "$(git -C /repo status --porcelain)" ]; then echo "refusing: /repo has uncommitted changes"; exit 3; fi
-git -C /repo apply $p || { echo "patch does not apply"; exit 2; }
-for id in "$@"; do /verif/bin/pvc check $id 2>&1 | grep -E "VIOLATION|KNOWN|UNDECIDED|^property=" | cut -c1-260 | head -8; done
-git -C /repo checkout -- . 
+sav=$(mktemp -d); cp -a /verif/evidence/. $sav/
+git -C /repo apply $p || { echo "patch does not apply"; rm -rf $sav; exit 2; }
+for id in "$@"; do
+  if [ "$id" = C14 ]; then /verif/tools/c14_check.sh quick 2>&1 | grep -E "VIOLATION|KNOWN|UNDECIDED|^property=" | cut -c1-260 | head -8
+  else /verif/bin/pvc check $id 2>&1 | grep -E "VIOLATION|KNOWN|UNDECIDED|^property=" | cut -c1-260 | head -8; fi
+done
+git -C /repo checkout -- .
+cp -a $sav/. /verif/evidence/; rm -rf $sav
